@@ -1046,3 +1046,196 @@ Proof.
   - unfold get_successful_discovers, d, run. destruct (counters_fold h empty_dir) as [P _]. rewrite P. cbn. lia.
   - unfold get_failed_discovers, d, run. destruct (counters_fold h empty_dir) as [_ P]. rewrite P. cbn. lia.
 Qed.
+
+(* ================= next / prev / first / last on the real operations ================= *)
+Theorem next_is_least_greater : forall l x, sorted l -> least_above l x (sl_next l x).
+Proof. intros l x S. rewrite sl_next_nxt. now apply nxt_spec. Qed.
+
+Theorem prev_is_greatest_smaller : forall l x, sorted l -> greatest_below l x (sl_prev l x).
+Proof. intros l x S. rewrite sl_prev_prv. now apply prv_spec. Qed.
+
+Lemma remove_all_filter l xs : sorted l ->
+  sl_remove_all l xs = filter (fun y => negb (memb y xs)) l.
+Proof. intros S. unfold sl_remove_all. now apply fold_sl_remove. Qed.
+
+Lemma filter_len {A} (f : A -> bool) l : (length (filter f l) <= length l)%nat.
+Proof. induction l as [|x l IH]; cbn [filter length]; [lia|]. destruct (f x); cbn [length]; lia. Qed.
+
+(* ================= iteration while elements disappear ================= *)
+Section Iteration.
+  Variable Rb : string -> string -> bool.      (* Rb a b: b comes after a in the direction of travel *)
+  Let R (a b : string) : Prop := Rb a b = true.
+  Hypothesis R_irrefl : forall a, ~ R a a.
+  Hypothesis R_trans : forall a b c, R a b -> R b c -> R a c.
+  Hypothesis R_total : forall a b, R a b \/ a = b \/ R b a.
+  Variable startf : list string -> option string.
+  Variable stepf : list string -> string -> option string.
+  Hypothesis startf_spec : forall l, sorted l ->
+    match startf l with
+    | Some y => In y l /\ forall z, In z l -> ~ R z y
+    | None => l = []
+    end.
+  Hypothesis stepf_spec : forall l x, sorted l ->
+    match stepf l x with
+    | Some y => In y l /\ R x y /\ forall z, In z l -> R x z -> ~ R z y
+    | None => forall z, In z l -> ~ R x z
+    end.
+
+  Let cnt (cur : string) (l : list string) : nat := length (filter (Rb cur) l).
+
+  Lemma iter_gen_ok : forall fuel sched i l cur, sorted l -> (cnt cur l < fuel)%nat ->
+    exists tr final, iter_gen stepf fuel sched i l cur = Some (tr, final) /\
+      trace_ok R (Some cur) tr final /\ sorted final /\ incl final l /\
+      (forall lk v, In (lk, v) tr -> sorted lk /\ incl lk l /\ incl final lk) /\
+      (forall z, In z l -> (forall j, ~ In z (sched j)) -> In z final).
+  Proof.
+    induction fuel as [|f IH]; intros sched i l cur Sl Hf; [lia|].
+    cbn [iter_gen]. rewrite (remove_all_filter _ _ Sl).
+    set (l' := filter (fun y => negb (memb y (sched i))) l).
+    assert (S' : sorted l') by now apply filter_sorted.
+    assert (I' : incl l' l) by (intros z Hz; now apply filter_In in Hz).
+    assert (K' : forall z, In z l -> (forall j, ~ In z (sched j)) -> In z l').
+    { intros z Hz Hn. apply filter_In. split; auto. apply negb_true_iff.
+      destruct (memb z (sched i)) eqn:M; auto. apply memb_In in M. now apply Hn in M. }
+    pose proof (stepf_spec l' cur S') as SP. destruct (stepf l' cur) as [n|].
+    - destruct SP as [Hn [Rn Least]].
+      assert (Hc : (cnt n l' < f)%nat).
+      { unfold cnt in *.
+        assert (LE : (length (n :: filter (Rb n) l') <= length (filter (Rb cur) l))%nat).
+        { apply NoDup_incl_length.
+          - constructor.
+            + intros H. apply filter_In in H as [_ H]. now apply (R_irrefl n).
+            + apply sorted_NoDup. now apply filter_sorted.
+          - intros z [<-|Hz]; apply filter_In.
+            + split; auto.
+            + apply filter_In in Hz as [Hz1 Hz2]. split; auto. apply (R_trans cur n z); auto. }
+        cbn [length] in LE. lia. }
+      destruct (IH sched (S i) l' n S' Hc) as [tr [final [E [T [Sf [If [Ent Nev]]]]]]].
+      rewrite E. exists ((l', n) :: tr), final. split; [reflexivity|].
+      split; [cbn [trace_ok after]; auto|]. split; auto.
+      split; [intros z Hz; auto|]. split.
+      + intros lk v [H|H].
+        * inversion H; subst. auto.
+        * destruct (Ent _ _ H) as [A [B C]]. split; auto. split; auto. intros z Hz. auto.
+      + intros z Hz Hnr. auto.
+    - exists [], l'. split; [reflexivity|]. split; [exact SP|]. split; [exact S'|].
+      split; [exact I'|]. split; [intros lk v []|exact K'].
+  Qed.
+
+  Lemma trace_visits_sorted : forall tr prev final, trace_ok R prev tr final ->
+    StronglySorted R (map snd tr) /\ Forall (after R prev) (map snd tr).
+  Proof.
+    induction tr as [|[lk v] r IH]; intros prev final T; cbn [map snd].
+    - split; constructor.
+    - cbn [trace_ok] in T. destruct T as [_ [Av [_ T]]]. destruct (IH _ _ T) as [S F].
+      split; [constructor; auto|]. constructor; auto.
+      rewrite Forall_forall in *. intros w Hw. specialize (F _ Hw). cbn [after] in F.
+      destruct prev as [p|]; cbn [after] in *; auto. apply (R_trans p v w); auto.
+  Qed.
+
+  Lemma trace_nothing_skipped : forall tr prev final, trace_ok R prev tr final ->
+    (forall lk v, In (lk, v) tr -> incl final lk) ->
+    forall z, In z final -> after R prev z -> In z (map snd tr).
+  Proof.
+    induction tr as [|[lk v] r IH]; intros prev final T Inc z Hz Az; cbn [trace_ok] in T.
+    - exfalso. exact (T z Hz Az).
+    - destruct T as [Hv [Av [Least T]]]. cbn [map snd In].
+      assert (Hzk : In z lk) by (apply (Inc lk v); [now left|auto]).
+      destruct (R_total v z) as [H|[H|H]]; auto.
+      + right. apply (IH (Some v) final T); auto. intros lk' v' H'. apply (Inc lk' v'). now right.
+      + exfalso. exact (Least z Hzk Az H).
+  Qed.
+
+  Lemma StronglySorted_R_NoDup l : StronglySorted R l -> NoDup l.
+  Proof.
+    induction l as [|x l IH]; intros SS; inversion SS as [|? ? SS' F]; subst; constructor; auto.
+    intros H. rewrite Forall_forall in F. exact (R_irrefl x (F x H)).
+  Qed.
+
+  Theorem iteration_gen : forall sched l, sorted l ->
+    exists tr final, iterate_gen startf stepf (S (length l)) sched l = Some (tr, final) /\
+      trace_ok R None tr final /\
+      StronglySorted R (map snd tr) /\ NoDup (map snd tr) /\
+      (forall z, In z final -> In z (map snd tr)) /\
+      (forall z, In z (map snd tr) -> In z l) /\
+      (forall z, In z l -> (forall j, ~ In z (sched j)) -> In z final) /\
+      incl final l.
+  Proof.
+    intros sched l Sl. unfold iterate_gen. rewrite (remove_all_filter _ _ Sl).
+    set (l0 := filter (fun y => negb (memb y (sched O))) l).
+    assert (S0 : sorted l0) by now apply filter_sorted.
+    assert (I0 : incl l0 l) by (intros z Hz; now apply filter_In in Hz).
+    assert (K0 : forall z, In z l -> (forall j, ~ In z (sched j)) -> In z l0).
+    { intros z Hz Hn. apply filter_In. split; auto. apply negb_true_iff.
+      destruct (memb z (sched O)) eqn:M; auto. apply memb_In in M. now apply Hn in M. }
+    pose proof (startf_spec l0 S0) as SP. destruct (startf l0) as [c|].
+    - destruct SP as [Hc Least].
+      assert (Hf : (cnt c l0 < S (length l))%nat).
+      { unfold cnt. pose proof (filter_len (Rb c) l0). pose proof (filter_len (fun y => negb (memb y (sched O))) l).
+        fold l0 in H0. lia. }
+      destruct (iter_gen_ok (S (length l)) sched 1%nat l0 c S0 Hf) as [tr [final [E [T [Sf [If [Ent Nev]]]]]]].
+      rewrite E. exists ((l0, c) :: tr), final. split; [reflexivity|].
+      assert (T' : trace_ok R None ((l0, c) :: tr) final).
+      { cbn [trace_ok after]. repeat split; auto. }
+      assert (Inc : forall lk v, In (lk, v) ((l0, c) :: tr) -> incl final lk).
+      { intros lk v [H|H]; [inversion H; subst; auto|]. now destruct (Ent _ _ H) as [_ [_ X]]. }
+      destruct (trace_visits_sorted _ _ _ T') as [SS _].
+      split; auto. split; auto. split; [now apply StronglySorted_R_NoDup|]. split.
+      + intros z Hz. apply (trace_nothing_skipped _ None final T' Inc z Hz). exact I.
+      + split; [|split].
+        * intros z Hz. apply in_map_iff in Hz as [[lk v] [Ez Hz]]. cbn [snd] in Ez. subst v.
+          destruct Hz as [H|H].
+          -- inversion H; subst. auto.
+          -- destruct (Ent _ _ H) as [_ [B _]].
+             assert (In z lk).
+             { clear - T H stepf_spec. revert T H. generalize (Some c). induction tr as [|[lk' v'] r IHr]; intros p T H; [destruct H|].
+               cbn [trace_ok] in T. destruct T as [Hv [_ [_ T]]]. destruct H as [H|H].
+               - inversion H; subst. auto.
+               - apply (IHr (Some v') T H). }
+             auto.
+        * intros z Hz Hn. auto.
+        * intros z Hz. auto.
+    - exists [], l0. split; [reflexivity|]. cbn [trace_ok after map].
+      split; [rewrite SP; intros z []|]. split; [constructor|]. split; [constructor|].
+      split; [rewrite SP; intros z []|]. split; [intros z []|].
+      split; [exact K0|exact I0].
+  Qed.
+End Iteration.
+
+Lemma str_gt_total a b : str_ltb b a = true \/ a = b \/ str_ltb a b = true.
+Proof. destruct (str_lt_trichotomy a b) as [H|[H|H]]; auto. Qed.
+
+(* forwards: first / next *)
+Theorem iteration_visits_remaining_once : forall sched l, sorted l ->
+  exists tr final, iterate (S (length l)) sched l = Some (tr, final) /\
+    trace_ok str_lt None tr final /\
+    sorted (map snd tr) /\ NoDup (map snd tr) /\
+    (forall z, In z final -> In z (map snd tr)) /\
+    (forall z, In z (map snd tr) -> In z l) /\
+    (forall z, In z l -> (forall j, ~ In z (sched j)) -> In z final) /\
+    incl final l.
+Proof.
+  intros sched l S. unfold iterate.
+  apply (iteration_gen str_ltb str_lt_irrefl str_lt_trans str_lt_trichotomy sl_first sl_next); auto.
+  - intros l0 S0. apply first_spec; auto.
+  - intros l0 x S0. apply (next_is_least_greater l0 x S0).
+Qed.
+
+(* backwards: last / prev *)
+Theorem iteration_back_visits_remaining_once : forall sched l, sorted l ->
+  exists tr final, iterate_back (S (length l)) sched l = Some (tr, final) /\
+    trace_ok str_gt None tr final /\
+    StronglySorted str_gt (map snd tr) /\ NoDup (map snd tr) /\
+    (forall z, In z final -> In z (map snd tr)) /\
+    (forall z, In z (map snd tr) -> In z l) /\
+    (forall z, In z l -> (forall j, ~ In z (sched j)) -> In z final) /\
+    incl final l.
+Proof.
+  intros sched l S. unfold iterate_back.
+  apply (iteration_gen (fun a b => str_ltb b a)); auto.
+  - intros a. apply str_lt_irrefl.
+  - intros a b c H1 H2. apply (str_lt_trans c b a); auto.
+  - intros a b. apply str_gt_total.
+  - intros l0 S0. apply last_spec; auto.
+  - intros l0 x S0. apply (prev_is_greatest_smaller l0 x S0).
+Qed.
